@@ -315,12 +315,61 @@ func checkEntryPoints(set lp.Settings, v lp.Val) (*lp.Program, string) {
 			}
 		}
 	}
+	if stateful(v) {
+		// a marshaler that calls Stack() or Ctx() changes the state of the event it runs on, and with
+		// it how a later occurrence of the same value on the same event is encoded (documented: Stack
+		// applies to the errors logged after it). The value model above accounts for that; byte
+		// equality between the occurrences on this one event is not implied.
+		rec.Excluded("equivalence skipped: value changes the event's stack/ctx state")
+		return p, ""
+	}
 	for i := 1; i < len(raws); i++ {
 		if raws[i] != raws[0] {
 			return p, fmt.Sprintf("type %s: entry point %s encodes %s but %s encodes %s; line %q", v.T, names[0], raws[0], names[i], raws[i], line)
 		}
 	}
 	return p, ""
+}
+
+// stateful: does logging v run Stack() or Ctx() on the enclosing event (through an object marshaler)?
+func stateful(v lp.Val) bool {
+	var ops func([]lp.Op) bool
+	var val func(lp.Val) bool
+	var ifc func(*lp.Iface) bool
+	ops = func(os []lp.Op) bool {
+		for _, o := range os {
+			if val(o.V) {
+				return true
+			}
+		}
+		return false
+	}
+	ifc = func(i *lp.Iface) bool {
+		if i == nil {
+			return false
+		}
+		if ops(i.Ops) {
+			return true
+		}
+		for k := range i.L {
+			if ifc(&i.L[k]) {
+				return true
+			}
+		}
+		return false
+	}
+	val = func(x lp.Val) bool {
+		if x.T == "stack" || x.T == "ctx" {
+			return true
+		}
+		for _, e := range x.L {
+			if val(e) {
+				return true
+			}
+		}
+		return ops(x.Ops) || ifc(x.If)
+	}
+	return val(v)
 }
 
 func recVal(set lp.Settings, v lp.Val, class string) {
